@@ -122,8 +122,49 @@ CLAIMS = {
         note="The correspondence of the start-up list with the directory (maildir_scan) and qmail-popup's pre-authentication "
              "dialogue are not covered; getln/scan_ulong are used through their contracts.",
         design_ref="DESIGN.md section 5 C19"),
+    "C02": dict(
+        text="NARROW claim - the sequential, per-process core only. Proof (CBMC) that every queue mutation of qmail-queue "
+             "main (S1->S2->S3->S4 and the cleanup paths, message number = inode), qmail-clean main (intd before mess/todo, "
+             "stop at the first failing unlink), and qmail-send cleanup_do (foop only for mess older than 36 h with info and "
+             "todo both stat'ed ENOENT), messdone (info unlinked only with local, remote, todo known absent and the bounce "
+             "queued; foop only after that), job_close and the start-up of main (queue lock before anything else; a second "
+             "instance exits 111 without touching the queue) keeps the message it handles inside S1..S5 and in the documented "
+             "order - from an arbitrary state, at every system call, with every call allowed to fail.",
+        note="NOT decided: the property's quantifier over interleavings of several processes and crashes. That the "
+             "per-process guarantees compose (fresh inode numbers, single locked daemon, 24 h vs 36 h separation) is a hand "
+             "argument in DESIGN.md, not a proof; inode uniqueness is a file-system assumption.",
+        design_ref="DESIGN.md section 5 C02, section 10"),
+    "C03": dict(
+        text="NARROW claim - the safety half, per function. Proof (CBMC, each function from an arbitrary table state): a "
+             "recipient is marked finished exactly for a K or D report (Z only on the message's last attempt), never for a "
+             "deferral, a garbled, out-of-range or unused-slot report or a lost spawner; the failure is recorded in the "
+             "bounce before the mark; a recipient list is unlinked only at end-of-list with nothing pending; info is removed "
+             "only when both lists and todo are known absent and the bounce was queued; every failure path re-inserts the "
+             "message into a retry queue (pqadd, job_close, messdone, pass_dochan), never forgets it.",
+        note="NOT decided: 'stays in the queue until every recipient is delivered or bounced' as a statement about whole "
+             "histories with restarts, and any liveness. Slot tables are bounded to 3-4 slots / 4-8 jobs (labelled bounded); "
+             "todo_do's record conservation is not yet under contract.",
+        design_ref="DESIGN.md section 5 C03, section 10"),
+    "C04": dict(
+        text="NARROW claim - per function. Proof (CBMC): pass_dochan starts a delivery only for a record still marked T, hands "
+             "it the offset of exactly that record, and advances the offset over every record read; del_start takes one free "
+             "slot below the concurrency limit, counts it and sends exactly one command; del_dochan frees exactly the reported "
+             "slot; markdone writes exactly one byte D at that offset of the right list; at start-up concurrency = "
+             "min(configured, byte announced by the spawner as 0..255) and the job table matches.",
+        note="NOT decided: exactly-once across histories and crash/restart (rests on the durability of the one-byte mark). "
+             "Slot/job tables bounded to 4/8 entries (labelled bounded).",
+        design_ref="DESIGN.md section 5 C04, section 10"),
+    "C16": dict(
+        text="NARROW claim - the premises of the no-lost-wake-up argument and the sleep computation, per function. Proof "
+             "(CBMC): qmail-queue pulls the trigger only after link(intd,todo) succeeded; todo_do re-arms the trigger before "
+             "it opens the todo directory, and a pulled trigger or the deadline starts a scan at once; pass_selprep, "
+             "todo_selprep and cleanup_selprep only lower the wake-up time, to at most the earliest key of every retry queue, "
+             "the next todo scan and the next cleanup, and to 0 while a scan is in progress.",
+        note="NOT decided: that publish-then-signal against re-arm-then-scan excludes a lost wake-up for every interleaving "
+             "(a schedule quantifier: hand argument only); the tv computation inside main's loop is not isolated.",
+        design_ref="DESIGN.md section 5 C16, section 10"),
 }
 
 NOT_APPLICABLE = {p: PENDING for p in
-                  ["C02", "C03", "C04", "C10", "C13", "C14",
-                   "C16", "C17", "C20"]}
+                  ["C10", "C13", "C14",
+                   "C17", "C20"]}
